@@ -14,7 +14,9 @@ try:
     for p in props:
         r = sh(["/verif/check", p, "--tier", tier], cwd="/verif")
         lines = [l for l in r.stdout.split("\n") if l.startswith(("VIOLATION", "KNOWN-FINDING", "OK", "INFRA"))]
-        print(f"[{p}] rc={r.returncode}", " || ".join(lines)[:600])
+        lines.sort(key=lambda l: 0 if l.startswith("VIOLATION") else 1)
+        lines = [l if l.startswith("VIOLATION") else l[:90] for l in lines]
+        print(f"[{p}] rc={r.returncode}", " || ".join(lines)[:900])
 finally:
     sh(["git", "-C", "/repo", "reset", "-q", "--hard", "HEAD"])
     st = sh(["git", "-C", "/repo", "status", "--porcelain"]).stdout.strip()
